@@ -25,6 +25,16 @@
 #include <intrin.h>
 #endif
 
+// Verification hooks (off by default). With -DDISPENSO_VERIF a harness supplies
+// dispenso_verif_hook(site) and may act at the named interleaving points; without it the macro
+// expands to nothing.
+#if defined(DISPENSO_VERIF)
+extern "C" void dispenso_verif_hook(int site);
+#define DISPENSO_VERIF_HOOK(site) dispenso_verif_hook(site)
+#else
+#define DISPENSO_VERIF_HOOK(site) ((void)0)
+#endif
+
 namespace dispenso {
 
 #define DISPENSO_MAJOR_VERSION 1
